@@ -1,5 +1,6 @@
 """Entry point: python3 -m vp.run <Cxx> quick|thorough [--replay file]"""
 import importlib
+import os
 import sys
 import traceback
 
@@ -20,7 +21,11 @@ def main(argv):
     tier = C.tier_from_argv(argv[1:])
     replay = None
     if "--replay" in argv:
-        replay = argv[argv.index("--replay") + 1]
+        i = argv.index("--replay")
+        if i + 1 >= len(argv) or not os.path.exists(argv[i + 1]):
+            print("TOOL-ERROR %s: --replay needs the path of an existing replay file" % pid, file=sys.stderr)
+            return 2
+        replay = argv[i + 1]
     try:
         mod = importlib.import_module("vp." + pid.lower())
     except Exception as e:      # a broken driver is a tool error, never a verdict
